@@ -20,6 +20,20 @@ func main() {
 		cmdVerify(os.Args[2:])
 	case "check":
 		cmdCheck(os.Args[2:])
+	case "list":
+		e, err := loadEngine("/repo", "/verif")
+		if err != nil {
+			fmt.Fprintln(os.Stderr, err)
+			os.Exit(2)
+		}
+		for _, fn := range e.repoFunctions() {
+			n := 0
+			for _, b := range fn.Blocks {
+				n += len(b.Instrs)
+			}
+			_, has := e.specs.Contracts[fnKey(fn)]
+			fmt.Printf("%-50s instrs=%-5d contract=%v\n", fnKey(fn), n, has)
+		}
 	default:
 		fmt.Fprintln(os.Stderr, "unknown command", os.Args[1])
 		os.Exit(2)
@@ -111,6 +125,7 @@ func cmdVerify(args []string) {
 	out := fs.String("out", "", "output dir for smt files")
 	timeout := fs.Int("timeout", 10000, "per-obligation timeout ms")
 	verbose := fs.Bool("v", false, "verbose")
+	dump := fs.String("dump", "", "write standalone queries for obligations whose name contains this string")
 	fs.Parse(args)
 	t0 := time.Now()
 	e, err := loadEngine(*repo, *verif)
@@ -143,6 +158,15 @@ func cmdVerify(args []string) {
 		nobl += ok + bad
 		nok += ok
 		fmt.Printf("%-40s obligations=%d discharged=%d failed=%d  (%s)\n", u.Key, ok+bad, ok, bad, u.File)
+		if *dump != "" {
+			for i, o := range u.Script.obls {
+				if strings.Contains(o.Name, *dump) {
+					fn := fmt.Sprintf("%s/dump_%s_%d.smt2", *out, mangle(u.Key), i)
+					os.WriteFile(fn, []byte(u.standaloneScript(i, true)), 0o644)
+					fmt.Printf("    dumped %s -> %s\n", o.Name, fn)
+				}
+			}
+		}
 		for _, o := range u.Script.obls {
 			good := o.good()
 			if !good || *verbose {
